@@ -49,6 +49,8 @@ func runSolver(ctx context.Context, name, bin, file string, timeout time.Duratio
 	first := strings.TrimSpace(strings.SplitN(s, "\n", 2)[0])
 	res := SolveResult{Solver: name, Seconds: time.Since(start).Seconds(), Raw: s}
 	switch {
+	case strings.Contains(s, "(error ") && !strings.Contains(s, "model is not available"):
+		res.Status = "error"
 	case first == "unsat":
 		res.Status = "unsat"
 	case first == "sat":
